@@ -83,6 +83,15 @@ def run_shard(shard, ctx):
             ext = [["SPARSE", 24, "RW", "a"], ["FLAT", 24, "RW", "b"]]
             ext.insert(pos, ["FLAT", sectors, "RW", "off", None, start])
             run_case({"kind": "vmdk", "extents": ext}, ctx)
+        # several extent lines carved out of one backing file (adjacent, out of order, separated by a sparse extent)
+        pieces = [(0, 40), (40, 24), (64, 16)]
+        for perm in itertools.permutations(range(3)):
+            for sp in (None, 0, 1, 2, 3):
+                for sk in ("SPARSE", "SESPARSE"):
+                    if sp is None and sk != "SPARSE":
+                        continue
+                    run_case({"kind": "vmdk-shared", "pieces": [list(pieces[j]) for j in perm], "sparse_at": sp, "sparse_kind": sk},
+                             ctx)
     elif kind == "vmdk2":
         i, k = shard["slice"]
         combos = itertools.product(itertools.product(KINDS, SIZES), repeat=2)
@@ -176,6 +185,8 @@ def run_case(case, ctx):
         with ctx.watch(case):
             if case["kind"] == "vmdk":
                 _case_vmdk(case, ctx, d, buf)
+            elif case["kind"] == "vmdk-shared":
+                _case_vmdk_shared(case, ctx, d, buf)
             elif case["kind"] == "vmdk-long":
                 _case_vmdk_long(case, ctx, d, buf)
             elif case["kind"] == "vmdk-huge":
@@ -275,6 +286,43 @@ def _case_vmdk(case, ctx, d, buf):
                       {"got": len(v.disks), "expected": len(parts)})
         return
     _finish(ctx, case, v, v.read_sectors, disk, bounds[:-1], buf, "vmdk.descriptor", closer, v.sector_count)
+
+
+def _case_vmdk_shared(case, ctx, d, buf):
+    from dissect.hypervisor.disk.vmdk import VMDK
+
+    from mc.builders import vmdk as B
+
+    ctx.outcome("vmdk-descriptor")
+    total = max(a + n for a, n in case["pieces"])
+    B.build_flat(total, 1, slack_sectors=9).write_to(os.path.join(d, "shared-flat.vmdk"))
+    lines, parts, bounds, pos = [], [], [], 0
+    seq = [("F", a, n) for a, n in case["pieces"]]
+    if case["sparse_at"] is not None:
+        seq.insert(case["sparse_at"], ("S", 0, 24))
+    for kind, a, n in seq:
+        if kind == "F":
+            lines.append(("RW", n, "FLAT", "shared-flat.vmdk", a))
+            parts.append(RawDisk(pattern.span(1, a * 512, n * 512)))
+        else:
+            img, m = _extent_image(case["sparse_kind"], n, 2, 1)
+            img.write_to(os.path.join(d, "between-s001.vmdk"))
+            lines.append(("RW", n, case["sparse_kind"], "between-s001.vmdk", None))
+            parts.append(m)
+        pos += n
+        bounds.append(pos)
+    with open(os.path.join(d, "disk.vmdk"), "w", encoding="utf-8") as f:
+        f.write(B.descriptor_text("custom", lines))
+    v = VMDK(Path(d) / "disk.vmdk")
+
+    def closer():
+        for dsk in v.disks:
+            try:
+                dsk.fh.close()
+            except Exception:
+                pass
+
+    _finish(ctx, case, v, v.read_sectors, ConcatDisk(parts), bounds[:-1], buf, "vmdk.descriptor.shared-file", closer, v.sector_count)
 
 
 def _case_vmdk_huge(case, ctx, d, buf):
